@@ -92,9 +92,7 @@ impl MulSpecImpl<&BigUint> for BigUint {
 }
 impl Mul<&BigUint> for BigUint {
     type Output = BigUint;
-    //@ assume BigUint:Mul<&BigUint>forBigUint : impl_mul! leaf (slice-pattern dispatch to scalar_mul / mul3 -> mac3 assumed); contract: exact product
-    #[verifier::external_body]
-    fn mul(self, other: &BigUint) -> (r: BigUint) ensures r.wf(), r.v() == self.v() * other.v() { unimplemented!() }
+//@ stub u_mul/mul_vr
 }
 
 /// t2 = (t0 - q*t1) mod m keeps the Bezout congruence: t2 * a == r2 (mod m) for r2 = r0 - q*r1
